@@ -64,8 +64,13 @@ def _portion_pool():
 
 def _body_pool():
     from pypika import Query, Field
+    tagged = Query.from_("t").select("c")
+    Query.from_(tagged)                       # from_() names an un-aliased sub-query in place: tagged.alias == "sq0"
     return [Query.from_("t").select("*"), Query.from_("u").select("a", "b"),
-            Query.from_("t").select("a").where(Field("a") == 1)]
+            Query.from_("t").select("a").where(Field("a") == 1),
+            # wrapped queries that carry an alias of their own (QueryBuilder.__eq__ compares the alias only)
+            Query.from_("t").select("a").as_("x"), Query.from_("t").select("b").as_("y"),
+            Query.from_("u").select("a").as_("x"), tagged]
 
 
 def _other_pool():
@@ -77,7 +82,7 @@ def _other_pool():
     return [q, q.as_("t"), u, u.as_("t"), Query.from_("t").select("x").as_("u")]
 
 
-N_FOR, N_PORTION, N_BODY, N_OTHER = 6, 3, 3, 5
+N_FOR, N_PORTION, N_BODY, N_OTHER = 6, 3, 7, 5
 
 # the Query classes a table can be bound to (Table(.., query_cls=X) or X.Table(..)); None = the default (Query)
 QCLS = ["Query", "MySQLQuery", "OracleQuery", "PostgreSQLQuery", "MSSQLQuery", "VerticaQuery", "RedshiftQuery",
@@ -99,7 +104,8 @@ def portion_text(i):
 
 
 def body_text(i):
-    return str(_body_pool()[i])
+    q = _body_pool()[i]
+    return str(q) + ("" if q.alias is None else " AS " + q.alias)
 
 
 # =================================================================================================
@@ -154,7 +160,13 @@ def build_obj(p):
     if k == "O":
         return _other_pool()[p["idx"]]
     if k == "A":
-        return AliasedQuery(p["name"]) if p["body"] is None else AliasedQuery(p["name"], _body_pool()[p["body"]])
+        if p["body"] is None:
+            return AliasedQuery(p["name"])
+        if p.get("via") == "with":
+            # the object a statement stores for  Query.with_(body, name)
+            from pypika import Query
+            return Query.with_(_body_pool()[p["body"]], p["name"]).from_(AliasedQuery(p["name"])).select("*")._with[0]
+        return AliasedQuery(p["name"], _body_pool()[p["body"]])
     r = p["route"]
     kw = {} if p["alias"] is None else {"alias": p["alias"]}
     q = p.get("qcls")
@@ -421,7 +433,11 @@ def probe_cfg():
         "QName": [(lambda: AliasedQuery("n"), lambda: AliasedQuery("m")),
                   (lambda: AliasedQuery("n", bp[0]), lambda: AliasedQuery("m", bp[0]))],
         "QBody": [(lambda: AliasedQuery("n"), lambda: AliasedQuery("n", bp[0])),
-                  (lambda: AliasedQuery("n", bp[0]), lambda: AliasedQuery("n", bp[1]))],
+                  (lambda: AliasedQuery("n", bp[0]), lambda: AliasedQuery("n", bp[1])),
+                  (lambda: AliasedQuery("n"), lambda: AliasedQuery("n", bp[3])),
+                  (lambda: AliasedQuery("n", bp[3]), lambda: AliasedQuery("n", bp[4])),
+                  (lambda: AliasedQuery("n", bp[3]), lambda: AliasedQuery("n", bp[5])),
+                  (lambda: AliasedQuery("n", bp[6]), lambda: AliasedQuery("n", bp[2]))],
     }
 
     def hashable(mk, cls):
@@ -668,7 +684,7 @@ ALIASES = ["a", "b", "t", ""]
 
 def gen_spec(rng, fam):
     if fam == "A":
-        return {"fam": "A", "name": rng.choice(NAMES), "body": rng.choice([None, None, 0, 1, 2])}
+        return {"fam": "A", "name": rng.choice(NAMES), "body": rng.choice([None, None] + list(range(N_BODY)))}
     depth = rng.choice([0, 1, 1, 2, 2, 3]) if fam == "T" else rng.choice([1, 1, 2, 3])
     chain = []          # root first: [name, is_database]
     for lv in range(depth):
@@ -693,7 +709,7 @@ def mutate(rng, sp):
         if rng.random() < 0.5:
             sp["name"] = rng.choice([x for x in NAMES if x != sp["name"]])
         else:
-            sp["body"] = rng.choice([x for x in [None, 0, 1, 2] if x != sp["body"]])
+            sp["body"] = rng.choice([x for x in [None, None, None] + list(range(N_BODY)) if x != sp["body"]])
         return sp
 
     def mut_chain(ch, allow_empty):
@@ -790,7 +806,10 @@ def _sprog(rng, chain):
 def realize(rng, sp, bad=None):
     """pick a construction route for a spec"""
     if sp["fam"] == "A":
-        return {"k": "A", "name": sp["name"], "body": sp["body"]}
+        p = {"k": "A", "name": sp["name"], "body": sp["body"]}
+        if sp["body"] is not None and rng.random() < 0.3:
+            p["via"] = "with"
+        return p
     if sp["fam"] == "S":
         return {"k": "S", "prog": _sprog(rng, sp["chain"])}
     if sp["fam"] == "O":
@@ -927,6 +946,12 @@ def _builtin_corpus():
         {"objs": [_t("t", ["attr", ["obs", ["attr", ["obs", ["new", True, "d"]], "s"]]], ops=[["obs"], ["portion", 0]]),
                   _t("t", ["tuple", ["d", "s"]], ops=[["portion", 0]]),
                   {"k": "S", "prog": ["obs", ["sub", False, "s", ["obs", ["new", False, "d"]]]]}]},
+        # named queries: definitions of one name whose wrapped queries differ (alias x / y / same alias / auto-tagged sq0 /
+        # none) next to the bare reference - == must stay transitive, list/set/dict must agree
+        {"objs": [{"k": "A", "name": "n", "body": 3}, {"k": "A", "name": "n", "body": None}, {"k": "A", "name": "n", "body": 4}]},
+        {"objs": [{"k": "A", "name": "n", "body": 4, "via": "with"}, {"k": "A", "name": "n", "body": 6}, {"k": "A", "name": "n", "body": None}]},
+        {"objs": [{"k": "A", "name": "n", "body": 3}, {"k": "A", "name": "n", "body": 5}, {"k": "A", "name": "n", "body": 0}]},
+        {"objs": [{"k": "A", "name": "n", "body": 3}, {"k": "A", "name": "m", "body": 3}, {"k": "A", "name": "n", "body": 3, "via": "with"}]},
         # the same table bound to different Query classes (query_cls=, X.Table): one identity, one hash
         {"objs": [_t("t"), _t("t", qcls=["kw", "MySQLQuery"]), _t("t", qcls=["cm", "OracleQuery"])]},
         {"objs": [_t("abc", ["tuple", ["d", "s"]], alias="x", qcls=["cm", "SnowflakeQuery"]),
@@ -1007,6 +1032,11 @@ def targeted_search(rng, broken, mism_cases):
             a = gen_spec(rng, fam)
             out.append({"objs": [realize(rng, a), realize(rng, a), realize(rng, mutate(rng, a))]})
     # the same chain with Schema / Database classes at every level, as schemas and as the schema of a table
+    # two definitions of one WITH name around the bare reference, for every pair of wrapped queries
+    for b1 in range(N_BODY):
+        for b2 in range(b1 + 1, N_BODY):
+            out.append({"objs": [{"k": "A", "name": "n", "body": b1}, {"k": "A", "name": "n", "body": None},
+                                 {"k": "A", "name": "n", "body": b2, "via": "with"}]})
     for idx in range(N_OTHER):
         for fam in ("T", "S", "A"):
             a = gen_spec(rng, fam)
